@@ -164,6 +164,7 @@ type c18Actor struct {
 	rec     *c18Rec
 	gate    chan struct{} // closed by the harness to let a gated actor go on
 	entered chan struct{} // closed by the actor once it is parked
+	started chan struct{} // closed when PostStart has been handled (it travels through the user mailbox)
 	once    sync.Once
 	slow    time.Duration
 }
@@ -172,6 +173,8 @@ func (a *c18Actor) PreStart(*Context) error { return nil }
 func (a *c18Actor) PostStop(*Context) error { return nil }
 func (a *c18Actor) Receive(ctx *ReceiveContext) {
 	switch m := ctx.Message().(type) {
+	case *PostStart:
+		close(a.started)
 	case *testpb.TestSum:
 		flags := m.GetB()
 		if flags&c18FlagGate != 0 {
@@ -378,7 +381,7 @@ type c18Msg struct {
 	err       error // Tell result
 }
 
-type c18Live struct {
+type c18LiveT struct {
 	pid   *PID // the local PID on its own system
 	actor *c18Actor
 	path  string
@@ -421,7 +424,7 @@ func c18Run(x *vfkit.X, fix *c18Fixture, c c18Case) (v c18Verdict) {
 	events = events[:0]
 
 	rec := &c18Rec{handled: map[int64]int{}, from: map[int64]string{}}
-	lives := make([]*c18Live, len(c.Targets))
+	lives := make([]*c18LiveT, len(c.Targets))
 	tellTo := make([]*PID, len(c.Targets)) // what the senders on A use
 	recvPath := make([]string, len(c.Targets))
 	var gates []chan struct{}
@@ -452,7 +455,7 @@ func c18Run(x *vfkit.X, fix *c18Fixture, c c18Case) (v c18Verdict) {
 		}
 		switch tg.State {
 		case c18Live, c18Stopped:
-			act := &c18Actor{rec: rec, gate: make(chan struct{}), entered: make(chan struct{}), slow: time.Duration(tg.SlowMicros) * time.Microsecond}
+			act := &c18Actor{rec: rec, gate: make(chan struct{}), entered: make(chan struct{}), started: make(chan struct{}), slow: time.Duration(tg.SlowMicros) * time.Microsecond}
 			opts := []SpawnOption{WithLongLived()}
 			switch tg.Mailbox {
 			case c18MbNonBlocking:
@@ -469,13 +472,20 @@ func c18Run(x *vfkit.X, fix *c18Fixture, c c18Case) (v c18Verdict) {
 				return
 			}
 			recvPath[i] = pathString(pid.Path())
+			select {
+			case <-act.started: // PostStart no longer occupies a mailbox slot
+			case <-time.After(20 * time.Second):
+				_ = pid.Shutdown(context.Background())
+				v.inconclusive = "start_timeout"
+				return
+			}
 			if tg.State == c18Stopped {
 				if err := pid.Shutdown(ctx); err != nil {
 					v.inconclusive = "shutdown_failed"
 					return
 				}
 			} else {
-				lives[i] = &c18Live{pid: pid, actor: act, path: recvPath[i]}
+				lives[i] = &c18LiveT{pid: pid, actor: act, path: recvPath[i]}
 				if tg.Gated {
 					gates = append(gates, act.gate)
 				}
@@ -587,6 +597,7 @@ func c18Run(x *vfkit.X, fix *c18Fixture, c c18Case) (v c18Verdict) {
 		}(si)
 	}
 	vfsched.SetNoise(c.NoiseSeed, c.NoiseProb, c.NoiseSleep)
+	defer vfsched.SetNoise(0, 0, 0)
 	close(start)
 	wg.Wait()
 
@@ -596,14 +607,12 @@ func c18Run(x *vfkit.X, fix *c18Fixture, c c18Case) (v c18Verdict) {
 			continue
 		}
 		if f.err != nil {
-			vfsched.SetNoise(0, 0, 0)
 			v.inconclusive = "fence_refused"
 			return
 		}
 		select {
 		case <-f.ch:
 		case <-time.After(30 * time.Second):
-			vfsched.SetNoise(0, 0, 0)
 			v.inconclusive = "fence_b_timeout"
 			return
 		}
@@ -613,8 +622,7 @@ func c18Run(x *vfkit.X, fix *c18Fixture, c c18Case) (v c18Verdict) {
 	for _, f := range holeFences {
 		if f != nil {
 			if f.err != nil {
-				vfsched.SetNoise(0, 0, 0)
-				v.inconclusive = "fence_refused"
+					v.inconclusive = "fence_refused"
 				return
 			}
 			wantHole[f.id] = true
@@ -634,8 +642,7 @@ func c18Run(x *vfkit.X, fix *c18Fixture, c c18Case) (v c18Verdict) {
 				break
 			}
 			if time.Now().After(deadline) {
-				vfsched.SetNoise(0, 0, 0)
-				v.stall = fmt.Sprintf("%d fence message(s) sent to the failing endpoint never came back as dead letters within 20s", len(wantHole))
+					v.stall = fmt.Sprintf("%d fence message(s) sent to the failing endpoint never came back as dead letters within 20s", len(wantHole))
 				return
 			}
 			time.Sleep(2 * time.Millisecond)
@@ -651,14 +658,12 @@ func c18Run(x *vfkit.X, fix *c18Fixture, c c18Case) (v c18Verdict) {
 		deadline := time.Now().Add(30 * time.Second)
 		for !l.pid.mailbox.IsEmpty() {
 			if time.Now().After(deadline) {
-				vfsched.SetNoise(0, 0, 0)
-				v.inconclusive = "drain_timeout"
+					v.inconclusive = "drain_timeout"
 				return
 			}
 			time.Sleep(time.Millisecond)
 		}
 		if _, err := Ask(ctx, l.pid, new(testpb.TestPing), 30*time.Second); err != nil {
-			vfsched.SetNoise(0, 0, 0)
 			v.inconclusive = "barrier_failed"
 			x.Logf("barrier to target %d: %v", i, err)
 			return
